@@ -45,7 +45,7 @@ func compile(t Term, env *Env) (clauses, error) {
 			if err != nil {
 				return nil, typeError(validTypeCallable, body, env)
 			}
-			c.raw = t
+			c.raw = env.simplify(t)
 			cs = append(cs, c)
 		}
 		return cs, nil
